@@ -76,7 +76,7 @@ theorem positionStep_safe (t : Table) (c : String) (id : Nat) (hlt : id < t.cols
       | some a => exact safe_bind (swapOrder_safe t c id (a + 1) hlt) (fun _ _ => safe_pure _)
 
 /-- `AddColumn` never panics on a consistent table -/
-theorem addColumn_safe (t : Table) (col : Column) (mysql : Bool) (h : t.Inv) : Safe (t.addColumn col mysql) := by
+theorem addColumn_safe (t : Table) (col : Column) (mysql : Bool) {pg : Bool} (h : t.Inv) : Safe (t.addColumn col mysql pg) := by
   unfold addColumn
   cases hg : t.colIdx.get? col.name with
   | none =>
@@ -296,8 +296,8 @@ theorem ensure_then_safe (m : Migration) (tb site : String) (f : Table → M Tab
   have hi1 := ensureTable_inv m m1 tb id h he
   exact onTable_safe m1 site id f hlt (fun t ht => hf t (hi1.each t ht))
 
-theorem addColumn_safe (m : Migration) (tb : String) (col : Column) (mysql : Bool) (h : m.Inv) :
-    Safe (m.addColumn tb col mysql) :=
+theorem addColumn_safe (m : Migration) (tb : String) (col : Column) (mysql : Bool) {pg : Bool} (h : m.Inv) :
+    Safe (m.addColumn tb col mysql pg) :=
   ensure_then_safe m _ _ _ h (fun t hi => Table.addColumn_safe t col mysql hi)
 
 theorem removeColumn_safe (m : Migration) (tb col : String) (h : m.Inv) : Safe (m.removeColumn tb col) :=
